@@ -242,8 +242,7 @@ package language
 // list_append(l1, l2): a new list object holding l1's elements followed by l2's; neither operand is changed
 //@ func listAppend
 //@   requires len(args) == 2 && forall j int :: 0 <= j && j < len(args) ==> args[j] != nil
-//@   modifies arrays("language.Object")
-//@   ensures[C07] old(typeis(args[0], "*List") && typeis(args[1], "*List")) ==> typeis(result, "*List") && fresh(result.(*List)) &&
+//@   ensures[C07] old(typeis(args[0], "*List") && typeis(args[1], "*List")) ==> typeis(result, "*List") && fresh(result.(*List)) && fresh(arr(result.(*List).Value)) &&
 //@                len(result.(*List).Value) == old(len(args[0].(*List).Value)) + old(len(args[1].(*List).Value))
 //@   ensures[C07] old(typeis(args[0], "*List") && typeis(args[1], "*List")) ==> forall j int :: {result.(*List).Value[j]} 0 <= j && j < old(len(args[0].(*List).Value)) ==> result.(*List).Value[j] == old(args[0].(*List).Value[j])
 //@   ensures[C07] old(typeis(args[0], "*List") && typeis(args[1], "*List")) ==> forall j int :: {old(args[1].(*List).Value[j])} 0 <= j && j < old(len(args[1].(*List).Value)) ==> result.(*List).Value[old(len(args[0].(*List).Value)) + j] == old(args[1].(*List).Value[j])
